@@ -162,10 +162,39 @@ def str1_cases(r: random.Random, n: int) -> list[tuple[str, str, str]]:
     return out
 
 
+def mstr_impl(q: str, indent: int, s: str, lit: str) -> dict:
+    """the real multi-line printer / reader / exactness test, for the correspondence with Text/MStr.v"""
+    from explorerscript.ssb_converting.ssb_data_types import _repr_multiline_string, _multiline_literal_is_exact
+    from explorerscript.ssb_converting.compiler.utils import multiline_string_literal
+
+    d = q * 3
+    return {"ok": True, "exact": _multiline_literal_is_exact(s, indent, d), "printed": _repr_multiline_string(s, indent, d),
+            "read_lit": multiline_string_literal(lit)}
+
+
+def mstr_cases(r: random.Random, n: int) -> list[tuple[str, int, str, str]]:
+    alpha = ["a", "b", " ", " ", "\n", "\n", "\r", "\r\n", "\x0b", "\x0c", "\x1c", "\x85", " ", " ", "'", '"', "\\", "é", "\t"]
+    out = []
+    for _ in range(n):
+        q = r.choice("'\"")
+        s = "".join(r.choice(alpha) for _ in range(r.randint(0, 12)))
+        body = "".join(r.choice(alpha) for _ in range(r.randint(0, 14)))
+        out.append((q, r.choice([0, 0, 1, 2, 5]), s, q * 3 + body + q * 3))
+    # literals the printer itself would write, and near misses of them
+    for _ in range(n // 2):
+        q = r.choice("'\"")
+        lines = ["".join(r.choice(["a", " ", "b", "'"]) for _ in range(r.randint(0, 5))) for _ in range(r.randint(1, 4))]
+        ind = r.choice([0, 1, 3])
+        pad = " " * (4 * ind + r.choice([0, 4, 4, 4, 2]))
+        lit = q * 3 + r.choice(["\n", "", "x\n"]) + "\n".join(pad + ln for ln in lines) + r.choice(["\n", "", "\n  ", "\ny"]) + " " * r.choice([0, 4 * ind]) + q * 3
+        out.append((q, ind, "\n".join(lines), lit))
+    return out
+
+
 def main() -> None:
     run = Run("C04", "proof")
     run.forbid()
-    run.require_vo(["Text/Dec.v", "Text/Str.v", "Text/StrProofs.v"])
+    run.require_vo(["Text/Dec.v", "Text/Str.v", "Text/StrProofs.v", "Text/MStr.v", "Text/MStrProofs.v"])
     run.props("Props/C04.v")
     q = run.tier == "quick"
     r = random.Random(f"C04-{run.seed}")
@@ -195,6 +224,28 @@ def main() -> None:
             first = (diff, {"quote": qq, "string": s, "literal": lit, "impl": im, "model": mo})
     if first is not None:
         run.correspondence_broken("K-str1 (Text/Str.v)", first[0], first[1])
+    # ... and of the multi-line string model (Text/MStr.v): printer, reader (all line separators), exactness test
+    mc = mstr_cases(r, 600 if q else 8000)
+    mimpl = run_impl([("checks.c04:mstr_impl", qq, ind, s, lit) for qq, ind, s, lit in mc])
+    mmod = run_driver([[A("mstr"), ord(qq), ind, [ord(c) for c in s], [ord(c) for c in lit]] for qq, ind, s, lit in mc])
+    mfirst = None
+    for (qq, ind, s, lit), im, mo in zip(mc, mimpl, mmod):
+        run.case(["mstr", qq, ind, s, lit], nontrivial=len(s) > 0)
+        t = lambda cps: "".join(chr(c) for c in cps)  # noqa: E731
+        diff = None
+        if not im.get("ok") or mo.get("r") != "ok":
+            diff = "failed"
+        elif im["exact"] != (mo["exact"] and (qq * 3) not in s):
+            diff = "multi_exact vs _multiline_literal_is_exact"
+        elif im["printed"] != t(mo["printed"]):
+            diff = "print_multi vs _repr_multiline_string"
+        elif im["read_lit"] != t(mo["read_lit"]):
+            diff = "read_multi vs multiline_string_literal"
+        run.count("K-mstr:" + ("ok" if diff is None else "DIFF"))
+        if diff and mfirst is None:
+            mfirst = (diff, {"quote": qq, "indent": ind, "string": s, "literal": lit, "impl": im, "model": mo})
+    if mfirst is not None:
+        run.correspondence_broken("K-mstr (Text/MStr.v)", mfirst[0], mfirst[1])
     strings = structured_strings(r, 400 if q else 5000) + exhaustive_strings(3 if q else 5)
     tasks, meta = [], []
     for s in strings:
